@@ -128,7 +128,7 @@ CompFrameBroken(e) ==
   \/ \E j \in 1..Len(b) : IF j = e.k + 1 THEN ~SameExcept(b[j], a[j], {CompKey(e.field)}) ELSE a[j] # b[j]
 IsCompOp(e) == e.field \in {"ins.comp.tag", "ins.comp.haspts", "ins.comp.pts"}
 SetVerdict(e, raw) ==
-  IF IsCompOp(e) /\ e.nocomp THEN (IF e.data_after # raw \/ e.before # e.after THEN "harness-skipped-call-changed-something" ELSE "")   \* no component to edit: no call was made
+  IF IsCompOp(e) /\ e.nocomp THEN (IF e.data_after # raw \/ e.before # e.after THEN "getters-or-encoding-changed-although-no-setter-was-called" ELSE "")   \* no component to edit: no call was made
   ELSE IF e.got # Expect(e) THEN "setter-not-reflected-" \o e.field
   ELSE IF IsCompOp(e) /\ CompFrameBroken(e) THEN "component-setter-changed-another-component-or-attribute"
   ELSE IF FrameBroken(e) # "" THEN "setter-" \o e.field \o "-changed-another-" \o FrameBroken(e)
